@@ -130,6 +130,24 @@ func (c *Case) fill(t reflect.Type, variant int, depth int) reflect.Value {
 	return v
 }
 
+// fillLink builds the row variants of a link table (see ops).
+func (c *Case) fillLink(tm *TableMeta, v int) reflect.Value {
+	switch {
+	case v < 3:
+		return c.fill(tm.Type, v, 0)
+	case v == 3:
+		row := c.fill(tm.Type, 0, 0)
+		f := row.FieldByName(tm.FKs[0].Field)
+		f.Set(c.fill(f.Type(), 1, 1))
+		return row
+	default:
+		row := c.fill(tm.Type, 1, 0)
+		f := row.FieldByName(tm.FKs[len(tm.FKs)-1].Field)
+		f.Set(c.fill(f.Type(), 2, 1))
+		return row
+	}
+}
+
 // ------------------------------------------------------------------------------------------
 // model
 
@@ -483,11 +501,17 @@ func (c *Case) ops(meta *CrudMeta) []op {
 				}
 			}
 		} else {
-			// link table
-			for v := 0; v < 3; v++ {
+			// link table: rows #0..#2 take all their keys from one variant; #3 and #4 mix them
+			// (#3 = #0 with the first key of #1, #4 = #1 with the last key of #2, NULL when nullable),
+			// so that two stored rows can agree on one key and differ on another
+			nv := 3
+			if len(tm.FKs) >= 2 {
+				nv = 5
+			}
+			for v := 0; v < nv; v++ {
 				v := v
 				out = append(out, op{fmt.Sprintf("%s#%d.Insert", T, v), func(r *crudRun) {
-					row := c.fill(tm.Type, v, 0)
+					row := c.fillLink(tm, v)
 					_, err, ok := r.call(T+".Insert", row.MethodByName("Insert"), reflect.ValueOf(r.store.DB()))
 					if !ok {
 						return
@@ -499,7 +523,7 @@ func (c *Case) ops(meta *CrudMeta) []op {
 					r.m.tables[T].rows = append(r.m.tables[T].rows, stored(row, tm))
 				}})
 				out = append(out, op{fmt.Sprintf("%s#%d.Delete", T, v), func(r *crudRun) {
-					row := c.fill(tm.Type, v, 0)
+					row := c.fillLink(tm, v)
 					_, err, ok := r.call(T+".Delete", row.MethodByName("Delete"), reflect.ValueOf(r.store.DB()))
 					if !ok {
 						return
